@@ -2178,6 +2178,10 @@ func (b transportResponseBody) Read(p []byte) (n int, err error) {
 		return 0, cs.readErr
 	}
 	n, err = b.cs.bufPipe.Read(p)
+	// consumed is the number of bytes taken out of the buffer. All of them are
+	// returned to the connection flow control window, including any bytes past
+	// the declared Content-Length which are not passed on to the caller.
+	consumed := n
 	if cs.bytesRemain != -1 {
 		if int64(n) > cs.bytesRemain {
 			n = int(cs.bytesRemain)
@@ -2186,25 +2190,25 @@ func (b transportResponseBody) Read(p []byte) (n int, err error) {
 				cs.abortStream(err)
 			}
 			cs.readErr = err
-			return int(cs.bytesRemain), err
-		}
-		cs.bytesRemain -= int64(n)
-		if err == io.EOF && cs.bytesRemain > 0 {
-			err = io.ErrUnexpectedEOF
-			cs.readErr = err
-			return n, err
+		} else {
+			cs.bytesRemain -= int64(n)
+			if err == io.EOF && cs.bytesRemain > 0 {
+				err = io.ErrUnexpectedEOF
+				cs.readErr = err
+				return n, err
+			}
 		}
 	}
-	if n == 0 {
+	if consumed == 0 {
 		// No flow control tokens to send back.
 		return
 	}
 
 	cc.mu.Lock()
-	connAdd := cc.inflow.add(n)
+	connAdd := cc.inflow.add(consumed)
 	var streamAdd int32
 	if err == nil { // No need to refresh if the stream is over or failed.
-		streamAdd = cs.inflow.add(n)
+		streamAdd = cs.inflow.add(consumed)
 	}
 	cc.mu.Unlock()
 
